@@ -16,13 +16,17 @@ if [ $CONFIRM = 1 ]; then
   ( cd $WT && /venv/bin/python -m pytest -q -p no:cacheprovider --timeout=900 --continue-on-collection-errors 2>&1 | tail -1 )
   git worktree remove --force $WT
 fi
+EVBAK=$(mktemp -d); cp -a /verif/evidence/. $EVBAK/
+cleanup() {
+  git -C /repo checkout -- . 2>/dev/null
+  # evidence files must describe runs on the unchanged tree: restore them
+  [ -d "$EVBAK" ] && cp -a $EVBAK/. /verif/evidence/ && rm -rf $EVBAK
+}
+trap cleanup EXIT INT TERM PIPE
 git apply "$SEED/patch.diff" || { echo "patch does not apply"; exit 2; }
 cd /verif
-EVBAK=$(mktemp -d); cp -a /verif/evidence/. $EVBAK/
 for p in "$PID" "${EXTRA[@]}"; do
   out=$(./vf check "$p" --tier quick 2>&1); rc=$?
   echo "== $p exit=$rc"; echo "$out" | grep -E "VIOLATION|violated|INCONCLUSIVE|MACHINERY|KNOWN" | cut -c1-400 | head -8
 done
-git -C /repo checkout -- .
-# evidence files must describe runs on the unchanged tree: restore them
-cp -a $EVBAK/. /verif/evidence/; rm -rf $EVBAK
+cleanup; trap - EXIT
